@@ -149,6 +149,116 @@ def _minus_const(e):
     return e, 0
 
 
+_FN_CALL = r'ops::function::Fn(Once|Mut)?::call(_once|_mut)?$'
+
+
+def _entry_numberings(b, o):
+    """Every place of body `b` where a log entry gets its number: the seq_no operand of a WalEntry{..} aggregate, or an assignment to <entry>.seq_no.
+    -> [(kind, block, origin tree of the number, origin of the assigned entry | None, loc)]"""
+    numberings = []
+    for i, blk in enumerate(b.blocks):
+        if i not in b.live_blocks():
+            continue
+        for st in blk['s']:
+            rv = st.get('rv')
+            if rv and rv['k'] == 'agg' and rv.get('adt', '').endswith('persistence::WalEntry') and 'seq_no' in (rv.get('fields') or []):
+                numberings.append(('agg', i, o.of_operand(rv['ops'][rv['fields'].index('seq_no')]), None, st.get('loc', b.loc_of(i))))
+            elif rv and st['pl'].get('p'):
+                fs = [x for x in st['pl']['p'] if isinstance(x, str) and x != '*']
+                if fs and fs[-1].endswith('persistence::WalEntry.seq_no'):
+                    numberings.append(('assign', i, o.of_rvalue(rv, 0, frozenset()), o.of_local(st['pl']['l']), st.get('loc', b.loc_of(i))))
+    return numberings
+
+
+def _subst_closure(t, params, caps):
+    """An origin tree of a closure body re-expressed at a call site of the closure: parameter k (local k ≥ 2) becomes component k−2 of the argument tuple,
+    capture i (`(*_1).^i`) becomes operand i of the closure aggregate."""
+    k = t[0]
+    if k == 'arg':
+        return params.get(t[1], t)
+    if k == 'field' and isinstance(t[2], str) and t[2].startswith('^') and t[1][0] == 'arg' and t[1][1] == 1:
+        m_ = re.match(r'^\^(\d+)', t[2])
+        return caps[int(m_.group(1))] if m_ and int(m_.group(1)) < len(caps) else t
+    if k in ('field', 'index', 'downcast', 'cast', 'set', 'discr'):
+        return (k, _subst_closure(t[1], params, caps)) + tuple(t[2:])
+    if k == 'call':
+        return (k, t[1], [_subst_closure(a, params, caps) for a in t[2]]) + tuple(t[3:])
+    if k == 'bin':
+        return (k, t[1], _subst_closure(t[2], params, caps), _subst_closure(t[3], params, caps))
+    if k == 'un':
+        return (k, t[1], _subst_closure(t[2], params, caps))
+    if k == 'agg':
+        return (k, t[1], [_subst_closure(a, params, caps) for a in t[2]]) + tuple(t[3:])
+    if k == 'phi':
+        return (k, [_subst_closure(a, params, caps) for a in t[1]])
+    return t
+
+
+def _closure_built_entries(prog, fam, origins):
+    """Log entries built by a closure that the writer (or a helper inlined into it) calls directly — `log_single_mutation(doc_id, |seq_no| WalEntry { seq_no, .. })` with
+    `let entry = make_entry(seq_no)` in the helper.  The entry is numbered by what the CALL passes for the closure's parameter, so each numbering site of the closure
+    body is carried over to every direct call site `Fn*::call*(closure, (args,))` of the body that builds the closure, with parameters and captures replaced by their
+    origins there; it is then subject to the same checks as an entry built in place (number = the reserved number itself, once per reservation, not in a loop).
+    Carried over only when nothing is left undecided by it: the closure reserves no number itself, builds entries by aggregates only and not in a loop of its own, is
+    constructed once, and its value goes nowhere but into those direct calls (not into another function, a structure or the return value).  Otherwise nothing is
+    carried over and the closure's entry is reported as numbered from outside, as before.
+    -> ({caller body id: [numbering at the call site]}, {ids of the closure bodies carried over})"""
+    imported, consumed = {}, set()
+    by_id = {b.id: b for b in fam}
+    for b in fam:
+        o = origins[b.id]
+        sites = {}
+        for c in b.calls:
+            if not any(n_ and re.search(_FN_CALL, n_) for n_ in (c.callee, c.orig)) or len(c.args) != 2:
+                continue
+            clo, tup = o.of_operand(c.args[0]), o.of_operand(c.args[1])
+            if clo[0] == 'agg' and clo[1].startswith('closure:') and tup[0] == 'agg' and tup[1] == 'tuple' and clo[1].split(':', 1)[1] in by_id:
+                sites.setdefault(clo[1].split(':', 1)[1], []).append((c, tup[2], clo[2]))
+        for cid, calls in sites.items():
+            cb = by_id[cid]
+            co = origins[cid]
+            nums = _entry_numberings(cb, co)
+            if not nums or cb.id == b.id:
+                continue
+            if any(c.callee and re.search(r'Atomic.*::fetch_add$', c.callee) and c.args and _is_seq_counter(co.of_operand(c.args[0])) for c in cb.calls):
+                continue   # reserves its own numbers: judged on its own
+            if any(n_[0] != 'agg' or n_[1] in cb.reach(cb.succ(n_[1])) for n_ in nums):
+                continue
+            tag = 'closure:' + cid
+            built = sum(1 for x in fam for blk in x.blocks for st in blk['s'] if st.get('rv', {}).get('k') == 'agg' and st['rv'].get('def') == cid)
+            direct = set(id(c) for c, _, _ in calls)
+
+            def carries(t):
+                """does the value `t` contain the closure itself (the RESULT of one of its direct calls does not)?"""
+                if t[0] == 'agg' and t[1] == tag:
+                    return True
+                if t[0] == 'call' and len(t) > 3 and id(t[3]) in direct:
+                    return any(carries(a) for a in t[2][1:])
+                k_ = t[0]
+                subs = [t[1]] if k_ in ('field', 'index', 'downcast', 'cast', 'set', 'discr') else t[2] if k_ in ('call', 'agg') else [t[2], t[3]] if k_ == 'bin' else \
+                    [t[2]] if k_ == 'un' else t[1] if k_ == 'phi' else []
+                return any(carries(a) for a in subs)
+            escapes = carries(o.of_local(0))
+            for c in b.calls:
+                if id(c) in direct:
+                    continue
+                if cid in c.gc or any(carries(o.of_operand(a)) for a in c.args):
+                    escapes = True
+            for blk in b.blocks:
+                for st in blk['s']:
+                    rv = st.get('rv')
+                    if rv and rv['k'] == 'agg' and rv.get('def') != cid and any(carries(o.of_operand(a)) for a in rv['ops']):
+                        escapes = True   # stored in a structure / captured by another closure
+            if built != 1 or escapes:
+                continue
+            consumed.add(cid)
+            for c, targs, caps in calls:
+                params = {k_ + 2: v_ for k_, v_ in enumerate(targs)}
+                for kind, bb, t, pl, loc in nums:
+                    imported.setdefault(b.id, []).append(('agg', c.bb, _subst_closure(t, params, caps), None, '%s, built by the closure called at %s' % (loc, c.loc)))
+    return imported, consumed
+
+
 def seq_accounting(ctx, prog, rid):
     """Sequence numbers are handed out once each, and the snapshot claims no more than was handed out (C02.R9; shared with C01.R12).
 
@@ -165,22 +275,15 @@ def seq_accounting(ctx, prog, rid):
         f = ctx.body(rid, name)
         if f is None:
             continue
-        for b in prog.family(f):
-            o = flow.Origin(b)
+        fam = prog.family(f)
+        origins = {b.id: flow.Origin(b) for b in fam}
+        imported, consumed = _closure_built_entries(prog, fam, origins)
+        for b in fam:
+            o = origins[b.id]
             fas = [c for c in b.calls if c.callee and re.search(r'Atomic.*::fetch_add$', c.callee) and c.args and _is_seq_counter(o.of_operand(c.args[0]))]
-            # every place where a log entry gets its number: the seq_no operand of a WalEntry{..} aggregate, or an assignment to <entry>.seq_no
-            numberings = []
-            for i, blk in enumerate(b.blocks):
-                if i not in b.live_blocks():
-                    continue
-                for st in blk['s']:
-                    rv = st.get('rv')
-                    if rv and rv['k'] == 'agg' and rv.get('adt', '').endswith('persistence::WalEntry') and 'seq_no' in (rv.get('fields') or []):
-                        numberings.append(('agg', i, o.of_operand(rv['ops'][rv['fields'].index('seq_no')]), None, st.get('loc', b.loc_of(i))))
-                    elif rv and st['pl'].get('p'):
-                        fs = [x for x in st['pl']['p'] if isinstance(x, str) and x != '*']
-                        if fs and fs[-1].endswith('persistence::WalEntry.seq_no'):
-                            numberings.append(('assign', i, o.of_rvalue(rv, 0, frozenset()), o.of_local(st['pl']['l']), st.get('loc', b.loc_of(i))))
+            # every place where a log entry gets its number: the seq_no operand of a WalEntry{..} aggregate, or an assignment to <entry>.seq_no — in this body, or in a
+            # closure this body calls directly (judged at the call site, with what the call passes)
+            numberings = ([] if b.id in consumed else _entry_numberings(b, o)) + imported.get(b.id, [])
             if not fas and not numberings:
                 continue
             const_nums = [n_ for n_ in numberings if n_[2][0] == 'const']
@@ -505,7 +608,47 @@ def run(ctx, prog):
         # `!covered` clears all_entries_covered on every path to the next entry
         al = comp.var_local('all_entries_covered')
         sw = [(i, preds) for i, preds in switches(comp, cv) if any(p in ('bool[var:covered]', '!bool[var:covered]') for _, p in preds)]
-        if not al or not sw:
+        # the same accumulation without a branch: `all_entries_covered &= covered` (= `all_entries_covered = all_entries_covered & covered`): the flag keeps its
+        # value for a covered entry and becomes false for an uncovered one. Accepted only in exactly this form (the flag itself AND the verdict, BitAnd), and only
+        # when EVERY path from a definition of `covered` to the next entry runs through such an assignment (the conditional form demands the same of its !covered edge)
+        acc = []
+        if al:
+            for d in comp.defs.get(al[0], []):
+                if d[2] == 'assign' and d[3]['rv'].get('k') == 'bin' and d[3]['rv'].get('op') == 'BitAnd' and d[0] in comp.live_blocks():
+                    e_ = cv.of_rvalue(d[3]['rv'], 0, frozenset())
+                    if e_[0] == 'bin' and sorted((e_[2], e_[3])) == sorted((('var', al[0], 'all_entries_covered'), ('var', cl[0], 'covered'))):
+                        acc.append((d[0], d[1]))
+        if al and acc and not sw:
+            acc_blocks = set(a_[0] for a_ in acc)
+            flag_use = edges_matching(comp, cv, r'^!?bool\[var:all_entries_covered\]$')
+            cdefs =[d for d in comp.defs.get(cl[0], []) if d[0] in comp.live_blocks()]
+            leak = []
+            for d in cdefs:
+                if any(a_[0] == d[0] and a_[1] > d[1] for a_ in acc):
+                    continue   # accumulated later in the very block that defines it
+                st_ = comp.succ(d[0])
+                r = comp.reach(st_, avoid_blocks=acc_blocks)
+                # neither the next entry (or segment) nor the test of the flag may be reachable from the verdict without the accumulation
+                if [c for c in comp.calls if c.is_('re:Iterator>::next$') and c.bb in r] or any(i_ in r for i_, tg, p in flag_use):
+                    leak.append(comp.loc_of(d[0], d[1]))
+            # nothing else writes the flag: its only definitions are the initial constant true, the accumulation(s) and constant-false clears
+            other = [comp.loc_of(d[0], d[1]) for d in comp.defs.get(al[0], []) if d[0] in comp.live_blocks() and (d[0], d[1]) not in acc and not (
+                d[2] == 'assign' and flow.render(cv.of_rvalue(d[3]['rv'], 0, frozenset())) in ('0', 'false', '1', 'true'))]
+            sets_true = [d for d in comp.defs.get(al[0], []) if d[0] in comp.live_blocks() and d[2] == 'assign' and flow.render(cv.of_rvalue(d[3]['rv'], 0, frozenset())) in ('1', 'true')]
+            # a `= true` inside the entry loop would forget an uncovered entry: the constant true may only be the initialisation that dominates every accumulation
+            # (outside the loop over the entries: the head of that loop is the innermost Iterator::next that dominates the accumulation and is reached again from it)
+            late_true = []
+            for a_ in acc:
+                hs_ = [c.bb for c in comp.calls if c.is_('re:Iterator>::next$') and comp.dominates(c.bb, a_[0]) and c.bb in comp.reach(comp.succ(a_[0]))]
+                hs_ = sorted(hs_, key=lambda h_, all_=tuple(hs_): -sum(1 for g_ in all_ if comp.dominates(g_, h_)))
+                for d in sets_true:
+                    in_loop = bool(hs_) and comp.dominates(hs_[0], d[0]) and hs_[0] in comp.reach(comp.succ(d[0]))
+                    if not hs_ or in_loop or not comp.dominates(d[0], a_[0]) or d[0] == a_[0]:
+                        late_true.append(comp.loc_of(d[0], d[1]))
+            ctx.inst('C02.R2', comp.short, 'an uncovered entry clears all_entries_covered', bool(cdefs) and not leak and not other and not late_true,
+                     'accumulation `all_entries_covered &= covered` at %s; verdicts reaching the next entry without it: %s; other writes of the flag: %s; flag set to true after an accumulation: %s'
+                     % ([comp.loc_of(*a_) for a_ in acc], leak, other, late_true))
+        elif not al or not sw:
             ctx.missing('C02.R2', 'compact_old_wal_segments: `if !covered { all_entries_covered = false }`')
         else:
             i, preds = sw[0]
